@@ -106,15 +106,21 @@ def first_diff(a, b):
 def run(chk):
     chk.explanation = ('translation validation: every definition of every generated resource module is compared with '
                        'what the resource generator yields from Patterns/*.yaml (generator semantics re-stated; '
-                       'generator source digest-pinned)')
+                       'and the generator itself interpreted as written - yaml_parser constructors, code_writer writers, '
+                       'generate - the latter deciding; a digest of the generator sources only says whether they changed)')
     chk.rule('C18.generator', 'resource-generator sources still have the semantics re-stated in the checker', floor=3)
     chk.rule('C18.module', 'every configFiles entry has its YAML, its module and exactly one class', floor=40)
     chk.rule('C18.header', 'header lines of the definition are present in the module', floor=40)
     chk.rule('C18.names', 'definition names agree in both directions', floor=3000)
     chk.rule('C18.def', 'definition equals what the generator yields from the YAML', floor=3000)
-    chk.assume('the generator is the one under Python/libraries/resource-generator at the digest recorded in '
-               'sa/props/c18_generator.digest.json; ruamel.yaml(typ=safe) resolves plain scalars by the YAML 1.2 core schema')
-    check_generator(chk)
+    chk.rule('C18.asgenerated', 'the generator, interpreted as it is written (yaml_parser constructors, code_writer writers, '
+                                'generate), yields a parseable module for every definition file', floor=40)
+    chk.assume('ruamel.yaml(typ=safe) composes the node tree sa/miniyaml.py reads (differentially checked against PyYAML in the '
+               'thorough tier) and resolves plain untagged scalars by the YAML 1.2 core schema; json.dumps, open and os are '
+               'natives of the checker when the generator under Python/libraries/resource-generator is interpreted')
+    changed = check_generator(chk)
+    from . import c18_interp
+    gen = c18_interp.GenRun()
     programs = 0
     rds = sorted(glob.glob(LIBS + '/*/resource-definitions.json'))
     if len(rds) < 5:
@@ -153,7 +159,9 @@ def run(chk):
                 continue
             chk.ok('C18.module', ppath, '<module>')
             programs += 1
-            compare_module(chk, ppath, root, classes[0], src, cf)
+            rec = _Recorder()
+            compare_module(rec, ppath, root, classes[0], src, cf)
+            reconcile(chk, gen, rec, ppath, root, cf, src)
         # a module in the resources dir not produced by any definition (only __init__ allowed)
         for f in sorted(os.listdir(outdir)):
             p = os.path.abspath(os.path.join(outdir, f))
@@ -163,6 +171,65 @@ def run(chk):
     chk.extra['yaml_files'] = len(yaml_files)
     chk.exhaustive = True
     chk._c18_yaml_files = yaml_files
+
+
+class _Recorder:
+    """records what the re-stated comparison would report, so that it can be reconciled with the generator as written"""
+
+    def __init__(self):
+        self.calls = []
+
+    def ok(self, rule, file, construct, detail='', line=None):
+        self.calls.append(('ok', rule, file, construct, detail, '', line))
+
+    def bad(self, rule, file, construct, detail, msg, line=None):
+        self.calls.append(('violation', rule, file, construct, detail, msg, line))
+
+    def judge(self, cond, rule, file, construct, detail, msg, line=None):
+        (self.ok(rule, file, construct, detail, line) if cond else self.bad(rule, file, construct, detail, msg, line))
+
+    def observe(self, text):
+        self.calls.append(('observe', text))
+
+
+def reconcile(chk, gen, rec, ppath, root, cf, src):
+    """The verdict on a definition is what the repository's generator, interpreted as written (c18_interp), yields; the
+    re-stated comparison supplies the description of a difference (and the stable keys of the listed findings).  Where the
+    two disagree the generator as written wins: a difference only it sees is reported, a difference only the re-statement
+    sees is not."""
+    from . import c18_interp
+    diff, only, err = c18_interp.mismatching_definitions(gen, root, cf, src, os.path.basename(ppath))
+    if err:
+        chk.bad('C18.asgenerated', ppath, '<module>', 'generator fails', '%s: %s' % (os.path.basename(ppath), err))
+        truth = None
+    else:
+        truth = set(diff) | set(only)
+    flagged = set()
+    disagree = []
+    for c in rec.calls:
+        if c[0] == 'observe':
+            chk.observe(c[1])
+            continue
+        verdict, rule, file, construct, detail, msg, line = c
+        if verdict == 'violation' and rule in ('C18.def', 'C18.names') and not construct.startswith('<'):
+            flagged.add(construct)
+            if truth is not None and construct not in truth:
+                disagree.append(construct)
+                chk.ok(rule, file, construct, 'equal to what the generator as written yields', line)
+                continue
+        (chk.ok(rule, file, construct, detail, line) if verdict == 'ok' else chk.bad(rule, file, construct, detail, msg, line))
+    extra = sorted((truth or set()) - flagged)
+    for n in extra:
+        kind = 'only-in-one' if n in only else 'differs'
+        chk.bad('C18.def', ppath, n, 'as-generated ' + kind,
+                '%s::%s %s' % (os.path.basename(ppath), n,
+                               'is defined on one side only (generator output vs checked-in module)' if n in only else
+                               'is not what the resource generator, as it is written now, produces from the YAML'))
+    if truth is not None:
+        chk.ok('C18.asgenerated', ppath, '<module>', '%d definitions differ from the generator\'s output' % len(truth))
+    if disagree or extra:
+        chk.observe('C18: %s - the generator as written and the re-stated writer semantics disagree on %s; verdicts follow '
+                    'the generator as written' % (os.path.basename(ppath), ', '.join(sorted(disagree + extra)[:8])))
 
 
 def compare_module(chk, ppath, root, cls, src, cf):
@@ -366,7 +433,8 @@ def generator_digests():
         defs = {n.name: n for n in t.body if isinstance(n, (ast.FunctionDef, ast.ClassDef))}
         for n in names:
             if n not in defs:
-                raise AnalysisError('anchor vanished: resource-generator/%s::%s' % (f, n))
+                out['%s::%s' % (f, n)] = 'absent'       # a changed generator: decided by interpretation, not an anchor
+                continue
             out['%s::%s' % (f, n)] = digest(ast.dump(defs[n], annotate_fields=False, include_attributes=False))
     return out
 
@@ -377,15 +445,19 @@ def check_generator(chk):
         raise AnalysisError('generator digest file missing')
     pinned = json.load(open(GENERATOR_DIGEST_FILE))
     base = os.path.join(LIBS, 'resource-generator')
+    changed = []
     for k, dg in cur.items():
         f = os.path.join(base, k.split('::')[0])
         chk.consulted(f)
         if pinned.get(k) != dg:
-            raise AnalysisError('resource generator changed (%s): the writer semantics re-stated in sa/props/c18.py must '
-                                'be re-validated against it before C18 can be decided' % k)
-    chk.ok('C18.generator', os.path.join(base, 'lib/code_writer.py'), 'writers', '%d definitions pinned' % len(cur))
-    chk.ok('C18.generator', os.path.join(base, 'lib/yaml_parser.py'), 'tags')
-    chk.ok('C18.generator', os.path.join(base, 'lib/base_code_generator.py'), 'generate')
+            changed.append(k)
+    if changed:
+        chk.observe('C18: the resource generator differs from the version the re-stated writer semantics were validated against '
+                    '(%s): definitions are decided by interpreting the generator as it is written now' % ', '.join(changed))
+    chk.ok('C18.generator', os.path.join(base, 'lib/code_writer.py'), 'writers', 'interpreted as written')
+    chk.ok('C18.generator', os.path.join(base, 'lib/yaml_parser.py'), 'tags', 'interpreted as written')
+    chk.ok('C18.generator', os.path.join(base, 'lib/base_code_generator.py'), 'generate', 'interpreted as written')
+    return changed
 
 
 # ---- thorough: differential self-check of the YAML reader against PyYAML where some interpreter has it ----
@@ -442,7 +514,7 @@ META = {
             'edit to any generated definition, or a YAML edit without regeneration, is a reported disagreement. The '
             'whole property is decided, which is why this level fits: the property is itself an equality of two texts.',
     'note': 'Trusted: the YAML-subset reader (differentially checked against PyYAML in the thorough tier where an '
-            'interpreter has it), the re-statement of the generator writers (the generator sources are digest-pinned; '
+            'interpreter has it), the generator interpreted as written by sa/ointerp.py (the re-statement of the writers only words the differences; '
             'a change there is ANALYSIS-ERROR, not a verdict), YAML 1.2 core scalar resolution as ruamel typ=safe does. '
             '55 divergences exist on the pinned tree (YAML ahead of Python) and are listed in known_findings.json.',
     'technique': 'translation validation: YAML-to-Python generator semantics re-stated, AST-level definition-by-definition comparison',
